@@ -65,6 +65,8 @@ func VerifC11Parse() {
 	}
 	if perr.IsEOF() {
 		vsymCover("parser-error-at-eof")
+		// the session's command reader ends the connection silently on such an error
+		vsymAssert(r.eofReads > 0, "a parser error claims the end of the stream although the stream has not ended: the line is never answered and the connection closed")
 		return
 	}
 	vsymCover("parser-error")
